@@ -1,5 +1,6 @@
 import StrettoModel.Proofs.Metrics
 import StrettoModel.Model.Lts
+import StrettoModel.Model.Histogram
 /-!
 # C17 — Metrics obey conservation laws
 
@@ -606,6 +607,117 @@ theorem admission_eviction_of_tracked_adds_one_sample (c : Cache) (vk : Nat) (vc
   · rename_i h; simp [Cache.met_metrics, hon, h, Cache.met]
   · rename_i h; simp [h]
 
+-- the histogram type behind `life_expectancy_seconds()` --------------------------------------------
+
+/-- one bucket more than bounds, and `count` is the sum of the buckets -/
+def Hist.WF (h : Hist) : Prop := h.buckets.length = h.bounds.length + 1 ∧ h.count = h.buckets.sum
+
+theorem bucketIdx_le (bs : List Int) (v : Int) : Hist.bucketIdx bs v ≤ bs.length := by
+  induction bs with
+  | nil => simp [Hist.bucketIdx]
+  | cons b rest ih => simp only [Hist.bucketIdx]; split <;> simp <;> omega
+
+/-- **the bucket of a sample**: every bound before it is ≤ the value, and its own bound (if it is not
+the overflow bucket) is > the value -/
+theorem bucketIdx_spec (bs : List Int) (v : Int) :
+    (∀ j, j < Hist.bucketIdx bs v → ∀ b, bs[j]? = some b → b ≤ v) ∧
+    (∀ b, bs[Hist.bucketIdx bs v]? = some b → v < b) := by
+  induction bs with
+  | nil => simp [Hist.bucketIdx]
+  | cons b rest ih =>
+    simp only [Hist.bucketIdx]
+    split
+    · rename_i hlt
+      exact ⟨fun j hj => by omega, fun b' hb' => by simp at hb'; omega⟩
+    · rename_i hge
+      refine ⟨?_, ?_⟩
+      · intro j hj b' hb'
+        cases j with
+        | zero => simp at hb'; omega
+        | succ j' =>
+          simp only [List.getElem?_cons_succ] at hb'
+          exact ih.1 j' (by omega) b' hb'
+      · intro b' hb'
+        have : (b :: rest)[1 + Hist.bucketIdx rest v]? = rest[Hist.bucketIdx rest v]? := by
+          rw [Nat.add_comm]; simp
+        rw [this] at hb'
+        exact ih.2 b' hb'
+
+theorem incAt_length (l : List Int) (i : Nat) : (Hist.incAt l i).length = l.length := by
+  induction l generalizing i with
+  | nil => rfl
+  | cons x rest ih => cases i <;> simp [Hist.incAt, ih]
+
+theorem incAt_sum (l : List Int) (i : Nat) (h : i < l.length) : (Hist.incAt l i).sum = l.sum + 1 := by
+  induction l generalizing i with
+  | nil => simp at h
+  | cons x rest ih =>
+    cases i with
+    | zero => simp [Hist.incAt]; omega
+    | succ j =>
+      simp only [Hist.incAt, List.sum_cons]
+      rw [ih j (by simpa using h)]; omega
+
+/-- `update` moves exactly one bucket, by one -/
+theorem incAt_get (l : List Int) (i j : Nat) (h : i < l.length) :
+    (Hist.incAt l i).getD j 0 = l.getD j 0 + (if j = i then 1 else 0) := by
+  induction l generalizing i j with
+  | nil => simp at h
+  | cons x rest ih =>
+    cases i with
+    | zero => cases j <;> simp [Hist.incAt]
+    | succ i' =>
+      cases j with
+      | zero => simp [Hist.incAt]
+      | succ j' =>
+        simp only [Hist.incAt, List.getD_cons_succ]
+        rw [ih i' j' (by simpa using h)]
+        simp
+
+theorem hist_new_wf (bounds : List Int) : Hist.WF (Hist.new bounds) := by
+  refine ⟨by simp [Hist.new], ?_⟩
+  simp only [Hist.new]
+  generalize bounds.length + 1 = n
+  induction n with
+  | zero => rfl
+  | succ k ih => simp [List.replicate_succ, ← ih]
+
+/-- **count equals the sum of the buckets**, after every `update` -/
+theorem hist_update_wf (h : Hist) (v : Int) (hw : Hist.WF h) : Hist.WF (h.update v) := by
+  obtain ⟨h1, h2⟩ := hw
+  have hi : Hist.bucketIdx h.bounds v < h.buckets.length := by
+    have := bucketIdx_le h.bounds v; omega
+  refine ⟨by simp [Hist.update, incAt_length, h1], ?_⟩
+  simp only [Hist.update]
+  rw [incAt_sum _ _ hi, h2]
+
+theorem hist_clear_wf (h : Hist) (hw : Hist.WF h) : Hist.WF h.clear := by
+  refine ⟨by simp [Hist.clear, hw.1], ?_⟩
+  simp only [Hist.clear]
+  generalize h.buckets = l
+  induction l with
+  | nil => rfl
+  | cons x rest ih => simp [← ih]
+
+/-- in every state reachable from `new` by updates and clears, `count` = Σ buckets -/
+theorem hist_count_eq_sum_buckets (bounds : List Int) (ops : List (Option Int)) :
+    Hist.WF (ops.foldl (fun h o => match o with | some v => h.update v | none => h.clear) (Hist.new bounds)) := by
+  have gen : ∀ (ops : List (Option Int)) (h : Hist), Hist.WF h →
+      Hist.WF (ops.foldl (fun h o => match o with | some v => h.update v | none => h.clear) h) := by
+    intro ops
+    induction ops with
+    | nil => intro h hw; exact hw
+    | cons o rest ih =>
+      intro h hw
+      simp only [List.foldl_cons]
+      apply ih
+      cases o with
+      | none => exact hist_clear_wf h hw
+      | some v => exact hist_update_wf h v hw
+  exact gen ops _ (hist_new_wf bounds)
+
+example : ((Hist.new [1, 2, 4, 8]).update 3 |>.update 8 |>.update 0).buckets = [1, 0, 1, 0, 1] := by decide
+
 -- non-vacuity ---------------------------------------------------------------------------------------
 def exCfg : Cfg := { itemSize := 56, ignoreInternal := true, bufCap := 4, ringCap := 2, pqCap := some 3, metricsOn := true }
 /-- two inserts applied, one lookup hit, one miss -/
@@ -626,5 +738,8 @@ end Stretto.C17
 #print axioms Stretto.C17.dropSets_exact
 #print axioms Stretto.C17.rejectSets_exact
 #print axioms Stretto.C17.clear_resets
+#print axioms Stretto.C17.hist_count_eq_sum_buckets
+#print axioms Stretto.C17.bucketIdx_spec
+#print axioms Stretto.C17.incAt_get
 #print axioms Stretto.C17.sweep_eviction_of_tracked_adds_one_sample
 #print axioms Stretto.C17.admission_eviction_of_tracked_adds_one_sample
